@@ -362,7 +362,17 @@ static std::string stepOld(const Toks& t)
 		String s = sess->t->readLine(d[0]);
 		return showBytes(s) + " " + b01(sess->t->end());
 	}
-	if (op == "r" || op == "rl" || op == "end" || op == "seek" || op == "pos") {
+	if ((op == "rl" || op == "end") && t.size() == 1) {
+		// readLine(String&) and end() are offered in every mode but "r+": after a failed read end() must say so
+		if (!sess) return "err nosession";
+		if (op == "rl" && !sess->t) return "err kind";
+		if (sess->mode == 3) return "err mode";
+		if (op == "end") return b01(sess->t ? sess->t->end() : sess->f->end());
+		bool r = sess->t->readLine(sess->line);
+		if ((int)strlen(*sess->line) != sess->line.length()) return "err strlen-mismatch";
+		return b01(r) + " " + showBytes(sess->line) + " " + b01(sess->t->end());
+	}
+	if (op == "r" || op == "seek" || op == "pos") {
 		if (!sess) return "err nosession";
 		if (sess->mode != 0) return "err mode";
 		if (op == "r" && t.size() == 2) {
@@ -374,13 +384,6 @@ static std::string stepOld(const Toks& t)
 			free(buf);
 			return r;
 		}
-		if (op == "rl" && t.size() == 1) {
-			if (!sess->t) return "err kind";
-			bool r = sess->t->readLine(sess->line);
-			if ((int)strlen(*sess->line) != sess->line.length()) return "err strlen-mismatch";
-			return b01(r) + " " + showBytes(sess->line) + " " + b01(sess->t->end());
-		}
-		if (op == "end" && t.size() == 1) return b01(sess->t ? sess->t->end() : sess->f->end());
 		if (op == "seek" && t.size() == 2) {
 			Long sz = File(anyFile()->path()).size();
 			anyFile()->seek((Long)((unsigned long long)num(t[1]) % (unsigned long long)(sz + 1)));
@@ -486,6 +489,36 @@ static std::string stepOld(const Toks& t)
 		}
 		if (op == "xreopen") r += " " + rawStr(0);
 		return r;
+	}
+	if (op == "xwend" && t.size() == 2) {
+		// the documented idiom on an object that has just written: while (!f.end()) f.readLine();
+		if (!parseBytes(t[1], bs)) return "bad-op";
+		unlink(pathOf(0).c_str());
+		Exact e(bs);
+		TextFile f(P(0));
+		f.write(S(e));
+		int n = 0;
+		while (!f.end() && n < 100000) { f.readLine(); n++; }
+		return str(n);
+	}
+	if (op == "xdirend" && t.size() == 1) {
+		TextFile f(String((root1 + "/d1").c_str()));
+		int n = 0;
+		while (!f.end() && n < 100000) { f.readLine(); n++; }
+		return str(n);
+	}
+	if (op == "xdircopy" && t.size() == 1) {
+		// Directory::copy of a directory (reading the source fails) and a cross-device move of an empty directory
+		unlink(pathOf(1).c_str());
+		std::string sub = root1 + "/d1/sub", subx = rootx.empty() ? root1 + "/d2/subx" : rootx + "/d2/subx";
+		mkdir(sub.c_str(), 0700);
+		bool okc = Directory::copy(String(sub.c_str()), P(1));
+		unlink(pathOf(1).c_str());
+		bool okm = rootx.empty() ? false : Directory::move(String(sub.c_str()), String(subx.c_str()));
+		struct stat sb;
+		bool there = stat(sub.c_str(), &sb) == 0;
+		rmdir(sub.c_str()); unlink(subx.c_str()); rmdir(subx.c_str());
+		return b01(okc) + " " + b01(okm) + " src=" + b01(there);
 	}
 	if (op == "xdirrlc" && t.size() == 1) {
 		// readLine(char) on a path that opens but cannot be read must come back (repair 95952ce)
